@@ -227,7 +227,8 @@ Definition lock_step (s : db) (conn : N) (c : cmd) : db * list event * option wa
                 (Some (s3, pev ++ aev ++ e3, None), c1, m_waited m)
               else
                 let '(s3, e3) := if negb from_aof && l_isaof (getl s2 r) then push_lock_aof s2 k r AOF_FLAG_UPDATED else (s2, []) in
-                (Some (s3, pev ++ aev ++ e3 ++ [reply conn c1 R_LOCKED_ERROR (m_locked (getm s3 k)) (l_locked (getl s3 r)) ldata], None), c1, m_waited m)
+                (Some (s3, pev ++ aev ++ e3 ++ [reply conn c1 R_LOCKED_ERROR (m_locked (getm s3 k)) (l_locked (getl s3 r)) ldata],
+                       Some (mkWake k (Some conn))), c1, m_waited m)
           else if (l_locked l <? 255) && (l_locked l <=? c_rcount c1) && negb (has (c_tflag c1) TF_PRIORITY) then
             if c_expried c1 =? 0 then
               (Some (s, [reply conn c1 R_SUCCED (m_locked m) (l_locked l) ldata], None), c1, m_waited m)
@@ -240,7 +241,7 @@ Definition lock_step (s : db) (conn : N) (c : cmd) : db * list event * option wa
               let '(s3, e3) := if l_isaof (getl s2 r) then push_lock_aof s2 k r AOF_FLAG_UPDATED else (s2, []) in
               let s3 := bump (fun n => n <| n_lock := (n_lock n + 1)%Z |> <| n_locked := (n_locked n + 1)%Z |>) s3 in
               (Some (s3, [EGrant k r false (m_locked m) (cur_count s k) (c_count c1)] ++ pev ++ aev ++ e3
-                         ++ [reply conn c1 R_SUCCED (m_locked (getm s3 k)) (l_locked (getl s3 r)) ldata], None), c1, m_waited m)
+                         ++ [reply conn c1 R_SUCCED (m_locked (getm s3 k)) (l_locked (getl s3 r)) ldata], Some (mkWake k (Some conn))), c1, m_waited m)
           else
             (Some (s, [reply conn c1 R_LOCKED_ERROR (m_locked m) (l_locked l) ldata], None), c1, m_waited m)
       | None => (None, c1, m_waited m)
